@@ -68,10 +68,10 @@ theorem grows_notifyService (s : Stack) (b : Bool) (k : SvcKey) (a : Addr) : Gro
     · exact grows_listenerOffered _ _ _ _
     · exact grows_listenerStopped _ _ _ _
   refine Grows.trans ?_ (grows_foldl _ (fun s id => hf s _) _ _)
-  exact grows_foldl _ (fun s p => by
+  refine (grows_foldl _ (fun s p => by
     split
     · exact grows_foldl _ (fun s l => hf s l) _ _
-    · exact Grows.refl _) _ _
+    · exact Grows.refl _) _ _).pre rfl
 
 theorem grows_cancelTimer (s : Stack) (own : Cb → Bool) (t : Option Nat) : Grows s (s.cancelTimer own t) := Grows.of_eq rfl
 theorem grows_armTtl (s : Stack) (ttl : Nat) (cb : Cb) : Grows s (s.armTtl ttl cb).1 := by
